@@ -13,12 +13,19 @@
             result is parse_from applied to the DecoderReader's result: DecodedBytes = the
             payload, File = complete::parse of it, Parser = streaming::Parser over it; errors
             pass through unchanged.  SmlReader adds nothing of its own.
-   That File / Parser targets return "exactly the file" for every valid encoding is C03; that
-   both parsers agree is C09.  This file contains the statements only. *)
+   (files)  composed with C03: if every payload b_i is a valid encoding of the SML file F_i
+            (grammar relation enc_file, C03/C04), then mapping T::parse_from over the results
+            of the reader gives, for every target type, exactly: DecodeErr(DiscardedBytes(|g_i|))
+            for each non-empty noise, then the file F_i - as its bytes, as the parsed File, or
+            as the streaming parser's event sequence followed by None - in order, then
+            IoErr(Eof, |tail|) for trailing noise.
+   This file contains the statements only. *)
 Require Export Sml.Base.Prelude Sml.Base.Crc Sml.Spec.Frame Sml.Model.Decode Sml.Model.Frontends.
 Require Export Sml.Model.Parser Sml.Model.Reader.
 Require Export Sml.Proofs.RoundTrip Sml.Proofs.Boundary Sml.Proofs.Resync.
 Require Export Sml.Proofs.FrontendsAgree Sml.Proofs.EndToEnd Sml.Proofs.Transmissions.
+Require Export Sml.Spec.TlfRef Sml.Spec.Grammar Sml.Proofs.ParserTotal Sml.Proofs.ParsersAgree.
+Require Export Sml.Proofs.FilesEndToEnd.
 
 Theorem C10_stream : forall (cap : cap_t) (segs : list (list byte * list byte)) (tail : list byte) (d : dec),
   norm d = norm init -> segs_ok cap segs -> quiet_tail tail ->
@@ -76,6 +83,26 @@ Proof.
   - split; [intros m; repeat split; reflexivity|]. split; intros; destruct t; reflexivity.
 Qed.
 Print Assumptions C10_compose.
+
+Theorem C10_files : forall (cap : cap_t) (kind : skind) (t : target)
+    (segs : list (list byte * list byte)) (tail : list byte) (Fs : list (list message)),
+  kind <> KEh -> segs_ok cap segs -> quiet_tail tail ->
+  Forall2 (fun F gm => ok_in (snd gm) /\ enc_file F (snd gm)) Fs segs ->
+  map (parse_from t)
+      (snd (rd_all cap (length (stream_of segs tail) + 2) (rd_new kind (map SByte (stream_of segs tail))))) =
+  flat_map (fun Fg : list message * (list byte * list byte) =>
+              (if 0 <? lenN (fst (snd Fg)) then [IDecErr (DiscardedBytes (lenN (fst (snd Fg))))] else []) ++
+              [match t with
+               | TBytes => IBytes (snd (snd Fg))
+               | TFile => IFile (fst Fg)
+               | TParser => IEvents (firstn (length (snd (snd Fg)) + 2)
+                                       (map SEvent (flat_map flatten_msg (fst Fg)) ++
+                                        repeat SNone (length (snd (snd Fg)) + 2)))
+               end])
+           (combine Fs segs) ++
+  (if 0 <? lenN tail then [IIoErr EkEof (lenN tail)] else []).
+Proof. exact files_end_to_end. Qed.
+Print Assumptions C10_files.
 
 Example C10_two_files_with_noise :
   snd (rd_all (Some 3%nat) 80
